@@ -502,6 +502,7 @@ func filterpath(peer *peer, path, old *table.Path) *table.Path {
 				old = nil
 			}
 		}
+		verifYield("locked.filterpath.afterRTC", peer.fsm)
 	}
 
 	// iBGP handling
